@@ -92,6 +92,13 @@ def _impl(tier, seed, search):
                 so(f'rpy2r(scalars,{tn_})', lambda: b.rpy2r(thn, thn, thn, unit=unit), inpn); so(f'eul2r(scalars,{tn_})', lambda: b.eul2r(thn, thn, thn, unit=unit), inpn)
                 valid_obj(f'SO2({tn_})', lambda: SO2(thn, unit=unit), inpn); valid_obj(f'SE2({tn_})', lambda: SE2(1.0, 2.0, thn, unit=unit), inpn)
                 valid_obj(f'SO3.Rx({tn_})', lambda: SO3.Rx(thn, unit) * SO3.Ry(thn, unit), inpn); valid_obj(f'SE3.Rz({tn_})', lambda: SE3.Rz(thn, unit), inpn); valid_obj(f'UQ.Rx({tn_})', lambda: UnitQuaternion.Rx(thn, unit), inpn)
+        # the product of a sequence whose first value is stored with integer dtype (SE3(1, 2, 3), SE2(1, 2, 0), an integer matrix)
+        if i % 10 == 0:
+            for nm_, mk_, want_ in (('SE3([SE3(1,2,3), Rx, Ry]).prod()', lambda: SE3([SE3(1, 2, 3), SE3.Rx(0.3), SE3.Ry(-0.7)]).prod(), b.transl(1, 2, 3) @ b.trotx(0.3) @ b.troty(-0.7)),
+                                    ('SE2([SE2(1,2,0), SE2(0,0,0.4)]).prod()', lambda: SE2([SE2(1, 2, 0), SE2(0, 0, 0.4)]).prod(), b.transl2(1, 2) @ b.trot2(0.4)),
+                                    ('SO3([I(int), Rz]).prod()', lambda: SO3([np.eye(3, dtype=int), b.rotz(0.5)]).prod(), b.rotz(0.5)), ('SE3([int T, Rx]).prod()', lambda: SE3([np.array(b.transl(2, 0, -1), dtype=int), b.trotx(1.1)]).prod(), b.transl(2, 0, -1) @ b.trotx(1.1))):
+                X_ = valid_obj(nm_, mk_, dict(case=nm_))
+                if X_ is not None and len(X_) == 1 and not np.allclose(np.asarray(X_.A, float), want_, atol=1e-9): L.fail('prod(int first value)', f'{nm_} is not the product of the values', dict(case=nm_), np.asarray(X_.A, float))
         # vector arguments held in single precision (axis, rotation vector, o/a pair, twist, quaternion components): a double-precision member
         if i % 4 == 2:
             ax32 = inputs.unit_axis(g).astype(np.float32) * np.float32(10.0 ** g.uniform(-1, 1)); w32 = (inputs.unit_axis(g) * float(g.uniform(0.1, 3.0))).astype(np.float32); tw32 = np.r_[g.normal(size=3), inputs.unit_axis(g) * float(g.uniform(0.1, 3.0))].astype(np.float32)
